@@ -44,7 +44,7 @@ Z3_RLIMIT = 2500000
 ASSUMPTIONS[0] = ASSUMPTIONS[0] % Z3_RLIMIT
 MAXTASKS = 1            # every shard starts from the parent's z3 / sympy state: results do not depend on scheduling
 SHRINK_SECONDS = 90
-SHRINK_BUDGET = 120
+SHRINK_BUDGET = 60
 
 NAT, INT, REAL, TA = ["tc", "nat"], ["tc", "int"], ["tc", "real"], ["tv", "a"]
 
@@ -826,7 +826,7 @@ class G:
 
     def fam_random(self):
         n = self.pick([0, 0, 1, 1, 2])
-        d = self.pick([1, 2, 2, 3])
+        d = self.pick([1, 2, 2, 2, 3])
         return [self.boolean(d - 1 if d > 1 else 1) for _ in range(n)], self.boolean(d)
 
     FAMILIES = [('random', 22), ('valid_prop', 8), ('valid_arith', 17), ('valid_quant', 10), ('valid_set', 8),
@@ -1030,6 +1030,9 @@ def setup():
     z3.set_param('sat.random_seed', 0)
     z3.set_param('nlsat.seed', 0)
     self_test()
+    import gc
+    gc.collect()
+    gc.freeze()             # fewer copy-on-write faults in the forked shard processes
 
 
 def decode(j):
@@ -1451,9 +1454,9 @@ def self_test():
 # ================================================================================ exploration
 def shards(tier):
     if tier == 'quick':
-        nz, ns, kz, ks = 4200, 900, 28, 12
+        nz, ns, kz, ks = 2400, 600, 12, 4
     else:
-        nz, ns, kz, ks = 90000, 16000, 96, 32
+        nz, ns, kz, ks = 60000, 12000, 48, 16
     out = []
     for i, n in enumerate(harness.split(nz, kz)):
         out.append({'kind': 'z3', 'n': n, 'i': i})
